@@ -240,3 +240,22 @@ def static_and_adaptive_flags_identify_the_sampler_kind(S):
     for nm, o in (("product", prod), ("sum", sm), ("appended", app)):
         S.ensure(f"{nm}-of-plain-samplers-is-neither", flag(o, "is_static") is False and flag(o, "is_adaptive") is False)
     S.ensure("a-static-sampler-of-a-product-is-static", flag(S.method(prod, "make_static"), "is_static") is True)
+
+
+@scenario("C15", [PS + ".make_static", SS + ".__init__", SS + ".sample_points"], configs=["two-static-samplers-of-one-sampler"])
+def static_samplers_made_from_one_sampler_are_independent(S):
+    """history: base.make_static(I) twice gives two StaticSampler objects with their OWN cache and use counter (also for
+    equal intervals): the first use of each draws its own set, and using one does not advance the other"""
+    n = S.int("n", 1)
+    inner = AbstractSampler(S, "inner", S.new(R2, "x"), n)
+    I = S.int("I", 2)
+    s1 = S.method(inner.obj, "make_static", I)
+    s2 = S.method(inner.obj, "make_static", I)
+    S.ensure("two-distinct-static-samplers", s1 is not s2 and S.I.isinstance_(s1, S.find(SS)) and S.I.isinstance_(s2, S.find(SS)))
+    S.ensure("the-wrapped-sampler-is-not-turned-static-itself", S.getattr(inner.obj, "is_static") is False)
+    a1 = S.method(s1, "sample_points")
+    b1 = S.method(s2, "sample_points")
+    S.ensure("each-first-use-draws-its-own-set", len(inner.calls) == 2 and a1 is inner.calls[0]["result"] and b1 is inner.calls[1]["result"] and a1 is not b1)
+    a2 = S.method(s1, "sample_points")
+    S.ensure("second-use-of-the-first-returns-its-cached-set-whatever-the-second-did", a2 is a1 and len(inner.calls) == 2)
+    S.ensure("use-counters-are-separate", zint(S.getattr(s1, "counter")) == 1 and zint(S.getattr(s2, "counter")) == 0)
